@@ -51,6 +51,20 @@ impl FeoxStore {
         self.version_clock.shards[shard].load(Ordering::Relaxed)
     }
 
+    /// Current value of `key` without touching the read cache or the statistics:
+    /// the resident bytes, else the bytes on disk. `None` if absent or unreadable.
+    pub fn verif_peek_value(&self, key: &[u8]) -> Option<Vec<u8>> {
+        let record = self.hash_table.read(key, |_, record| Arc::clone(record))?;
+        if let Some(value) = record.get_value() {
+            return Some(value.to_vec());
+        }
+        self.load_value_from_disk(&record).ok().map(|value| value.to_vec())
+    }
+
+    pub fn verif_is_memory_only(&self) -> bool {
+        self.memory_only
+    }
+
     pub fn verif_disk_usage(&self) -> u64 {
         self.stats.disk_usage.load(Ordering::Relaxed)
     }
